@@ -297,7 +297,7 @@ class SymArr:
     def _norm_slice(self, s, n):
         def c(v):
             if isinstance(v, SymInt):
-                return concretize(v, -n - 2, n + 2, "slice bound")
+                return concretize(v, -n - 26, n + 26, "slice bound")
             v = core._np_scalar(v)
             if v is not None and not isinstance(v, int):
                 raise TypeError("slice indices must be integers")
